@@ -280,6 +280,10 @@ def collect_macros(paths):
     return [n for n in order if n in ok], [n for n in order if n not in ok]
 
 
+def lean_name(s):
+    return 'n!"' + s.replace("\\", "\\\\").replace('"', '\\"') + '"'
+
+
 def lean_str(s):
     return '"' + s.replace("\\", "\\\\").replace('"', '\\"') + '"'
 
@@ -398,14 +402,14 @@ def main():
 
     # ---- Lean
     def leaf_lean(l):
-        return "⟨%s, %d, %d, %d, .%s, false⟩" % (lean_str(l["path"]), l["off"], l["esize"], l["count"], l["cls"])
+        return "⟨%s, %d, %d, %d, .%s, false⟩" % (lean_name(l["path"]), l["off"], l["esize"], l["count"], l["cls"])
 
     with open(os.path.join(leandir, "CLayout.lean"), "w") as fh:
         fh.write("import DaeVerif.C19.Types\n/-! GENERATED by translators/c19_c/gen_c.py from control/kern/tproxy.c (clang, BPF target). Do not edit. -/\n")
         fh.write("namespace DaeVerif.C19.Gen\nopen DaeVerif.C19\n\n")
         fh.write("def cRecs : List Rec := [\n")
         fh.write(",\n".join(
-            "  ⟨%s, %d, %d, [\n    %s]⟩" % (lean_str(r["name"]), r["size"], r["align"], ",\n    ".join(leaf_lean(l) for l in r["leaves"]))
+            "  ⟨%s, %d, %d, [\n    %s]⟩" % (lean_name(r["name"]), r["size"], r["align"], ",\n    ".join(leaf_lean(l) for l in r["leaves"]))
             for r in out["records"]))
         fh.write("]\n\n")
         fh.write("def cMaps : List CMap := [\n")
@@ -413,13 +417,13 @@ def main():
             mm = re.match(r"^(?:struct|union) (\w+)$", t)
             return mm.group(1) if mm else ""
         fh.write(",\n".join("  ⟨%s, %d, %d, %d, %d, %s, %s, %s, %s⟩" % (
-            lean_str(mp["name"]), mp["type"], mp["key_size"], mp["value_size"], mp["max_entries"],
-            lean_str(mp["keyType"]), lean_str(mp["valType"]), lean_str(rec_of(mp["keyType"])),
-            lean_str(rec_of(mp["valType"]))) for mp in out["maps"]))
+            lean_name(mp["name"]), mp["type"], mp["key_size"], mp["value_size"], mp["max_entries"],
+            lean_str(mp["keyType"]), lean_str(mp["valType"]), lean_name(rec_of(mp["keyType"])),
+            lean_name(rec_of(mp["valType"]))) for mp in out["maps"]))
         fh.write("]\n\n")
-        fh.write("def cProgs : List String := [%s]\n\n" % ", ".join(lean_str(p) for p in out["progs"]))
-        fh.write("def cGlobals : List (String × String × Nat) := [%s]\n\n" % ", ".join(
-            "(%s, %s, %d)" % (lean_str(g["name"]), lean_str(g["ctype"]), g["size"]) for g in out["globals"]))
+        fh.write("def cProgs : List Name := [%s]\n\n" % ", ".join(lean_name(p) for p in out["progs"]))
+        fh.write("def cGlobals : List (Name × String × Nat) := [%s]\n\n" % ", ".join(
+            "(%s, %s, %d)" % (lean_name(g["name"]), lean_str(g["ctype"]), g["size"]) for g in out["globals"]))
         fh.write("end DaeVerif.C19.Gen\n")
     with open(os.path.join(leandir, "CConsts.lean"), "w") as fh:
         fh.write("import DaeVerif.C19.Types\n/-! GENERATED by translators/c19_c/gen_c.py. Do not edit. -/\n")
@@ -431,12 +435,12 @@ def main():
         for x in out["macros"] + out["static_consts"]:
             rows.append((x["name"], x["val"]))
         fh.write("/-- enum constants, integer `#define`s and `static const` integers of control/kern, as the compiler folds them. -/\n")
-        fh.write("def cConsts : List (String × Int) := [\n")
-        fh.write(",\n".join("  (%s, %d)" % (lean_str(n), v) for n, v in rows))
+        fh.write("def cConsts : List (Name × Int) := [\n")
+        fh.write(",\n".join("  (%s, %d)" % (lean_name(n), v) for n, v in rows))
         fh.write("]\n\n")
         fh.write("/-- (enum name, sizeof, constant names in declaration order) -/\n")
-        fh.write("def cEnums : List (String × Nat × List String) := [\n")
-        fh.write(",\n".join("  (%s, %d, [%s])" % (lean_str(e["name"]), e["size"], ", ".join(lean_str(c["name"]) for c in e["consts"]))
+        fh.write("def cEnums : List (Name × Nat × List Name) := [\n")
+        fh.write(",\n".join("  (%s, %d, [%s])" % (lean_name(e["name"]), e["size"], ", ".join(lean_name(c["name"]) for c in e["consts"]))
                             for e in out["enums"]))
         fh.write("]\n\nend DaeVerif.C19.Gen\n")
     print("c19 gen_c: %d records, %d maps, %d enums, %d macros (%d skipped), %d programs, %d probe values" % (
